@@ -402,6 +402,7 @@ func TestVerifReplay(t *testing.T) {
 			t.Fail()
 		}
 	}()
+	defer VerifCleanup()
 	%s()
 	if len(VerifFailed) > 0 {
 		t.Fail()
@@ -415,7 +416,7 @@ func TestVerifReplay(t *testing.T) {
 	os.WriteFile(filepath.Join(dir, "overlay.json"), ob, 0o644)
 	args := []string{"test", "-vet=off", "-count=1", "-v", "-overlay", filepath.Join(dir, "overlay.json"), "-run", "TestVerifReplay"}
 	if e.Replay == "race" {
-		args = append(args, "-race")
+		args = append(args, "-race", "-timeout", "60s")
 	}
 	args = append(args, "./"+pkgDir)
 	cmdline := "cd " + RepoRoot + " && VERIF_REPLAY=" + filepath.Join(dir, "inputs.json") + " GOFLAGS=-mod=mod GOPROXY=off go " + strings.Join(args, " ")
@@ -428,6 +429,12 @@ func TestVerifReplay(t *testing.T) {
 	txt := string(out)
 	if strings.Contains(txt, "VERIF-ASSERT-FAIL "+v.Label) {
 		return true, "native replay fails assertion " + v.Label
+	}
+	if e.Replay == "race" && strings.Contains(txt, "WARNING: DATA RACE") {
+		return true, "native replay under -race reports a data race"
+	}
+	if e.Replay == "race" && (strings.Contains(txt, "all goroutines are asleep") || strings.Contains(txt, "TIMEOUT") || strings.Contains(txt, "test timed out")) {
+		return true, "native replay deadlocks (lock not released)"
 	}
 	if strings.Contains(txt, "VERIF-UNCAUGHT-PANIC") {
 		return true, "native replay panics outside verifTry: " + firstLineWith(txt, "VERIF-UNCAUGHT-PANIC")
